@@ -622,7 +622,18 @@ Section Tree.
     apply bind_ok in H. destruct H as (o1 & Ho1 & H). unfold skip_ne in Ho1.
     pose proof (skip_while_good content 106 (fun ch => negb (N.eqb ch tpp_MultiLineLastChar)) (snd mo - ps_fo st) (ps_fo st) (snd mo) Hend (Nat.le_refl _)) as G.
     rewrite Ho1 in G. cbn [good] in G.
-    destruct (Nat.ltb_spec o1 (snd mo)) as [Hlt|Hge].
+    destruct (Nat.ltb_spec o1 (snd mo)) as [Hlt|Hge]; cbn [andb] in H.
+    2:{ injection H as <-. unfold with_finder. destruct HJ as [HA|HD]; [|right; exact HD].
+      destruct (alive_parts st HI HA Hm) as (_ & _ & Hn & lo & Hst & Hlo & Hcur).
+      apply cur_ok_plain in Hcur; [|rewrite Hk; discriminate|rewrite Hk; discriminate].
+      unfold pos in Hcur. rewrite Hk in Hcur. cbn in Hcur.
+      apply (J_settle _ _ _ _ lo (ps_fo st - 5) (ps_fo st) mo Hst); [exact Hcur|lia|lia|exact Hs|lia]. }
+    destruct (Nat.leb_spec (length (ps_stack st)) 255) as [Hdep|Hdep].
+    2:{ injection H as <-. unfold with_finder. destruct HJ as [HA|HD]; [|right; exact HD].
+      destruct (alive_parts st HI HA Hm) as (_ & _ & Hn & lo & Hst & Hlo & Hcur).
+      apply cur_ok_plain in Hcur; [|rewrite Hk; discriminate|rewrite Hk; discriminate].
+      unfold pos in Hcur. rewrite Hk in Hcur. cbn in Hcur.
+      apply (J_settle _ _ _ _ lo (ps_fo st - 5) (ps_fo st) mo Hst); [exact Hcur|lia|lia|exact Hs|lia]. }
     - destruct (skip_while_stop _ _ _ _ _ _ _ Ho1 Hlt) as (ch & Hch1 & Hp).
       apply negb_false_iff, N.eqb_eq in Hp. rewrite Hp in Hch1.
       apply bind_ok in H. destruct H as (l1 & Hl1 & H). unfold parse_loop_attributes in Hl1.
@@ -660,11 +671,6 @@ Section Tree.
       { unfold fnext in Hf. destruct (next_w w content (ps_fo st)) as [m o'|]; [injection Hf as <-; reflexivity|discriminate Hf]. }
       destruct (Nat.lt_ge_cases o1 (snd mo - toklen (fst mo))) as [Hin|Hout]; [lia|].
       exfalso. destruct (next_w_token_gt _ _ _ _ _ Hfo Hnw o1) as [X|X]; [lia|exact Hch1|contradiction|contradiction].
-    - injection H as <-. unfold with_finder. destruct HJ as [HA|HD]; [|right; exact HD].
-      destruct (alive_parts st HI HA Hm) as (_ & _ & Hn & lo & Hst & Hlo & Hcur).
-      apply cur_ok_plain in Hcur; [|rewrite Hk; discriminate|rewrite Hk; discriminate].
-      unfold pos in Hcur. rewrite Hk in Hcur. cbn in Hcur.
-      apply (J_settle _ _ _ _ lo (ps_fo st - 5) (ps_fo st) mo Hst); [exact Hcur|lia|lia|exact Hs|lia].
   Qed.
 
   Lemma frames_top : forall init t rest lo, frames_ok ((init ++ [t]) :: rest) lo ->
